@@ -324,14 +324,16 @@ theorem step_inv (cfg : Cfg) (f : Forest) (n : Bool) (op : Op) (hi : Inv f) (hk 
           · split
             · exact fun _ => hi
             · next start stop stp hidx =>
-              have hp := fun h => slicePrepare_inv cfg m vs f 0 hi hk h
+              split
+              · exact fun _ => hi
+              have hp := fun h => slicePrepare_inv cfg m (sliceIx cfg start stp) vs f 0 hi hk h
               have run_inv : ∀ (st sp : Int) (repl : List (Bool × VE)),
-                  ((slicePrepare cfg m f 0 vs).1.aliased = false → Keyed repl) →
-                  (match sliceLoop cfg t st sp (slicePrepare cfg m f 0 vs).1 0 repl false with
-                    | .error e => (⟨(slicePrepare cfg m f 0 vs).1, .err e⟩ : Res)
+                  ((slicePrepare cfg m (sliceIx cfg start stp) f 0 vs).1.aliased = false → Keyed repl) →
+                  (match sliceLoop cfg t st sp (slicePrepare cfg m (sliceIx cfg start stp) f 0 vs).1 0 repl false with
+                    | .error e => (⟨(slicePrepare cfg m (sliceIx cfg start stp) f 0 vs).1, .err e⟩ : Res)
                     | .ok (f', upd) => ⟨if (n && upd) = true then notify f' [m.id] else f', .ok⟩).forest.aliased = false →
-                  Inv (match sliceLoop cfg t st sp (slicePrepare cfg m f 0 vs).1 0 repl false with
-                    | .error e => (⟨(slicePrepare cfg m f 0 vs).1, .err e⟩ : Res)
+                  Inv (match sliceLoop cfg t st sp (slicePrepare cfg m (sliceIx cfg start stp) f 0 vs).1 0 repl false with
+                    | .error e => (⟨(slicePrepare cfg m (sliceIx cfg start stp) f 0 vs).1, .err e⟩ : Res)
                     | .ok (f', upd) => ⟨if (n && upd) = true then notify f' [m.id] else f', .ok⟩).forest := by
                 intro st sp repl hrepl
                 split
@@ -694,10 +696,13 @@ theorem step_rise (cfg : Cfg) (f : Forest) (n : Bool) (op : Op) (ha : f.aliased 
           · exact ha
           · split
             · exact ha
-            · have hp := slicePrepare_rise cfg m vs f 0 ha
+            · next start stop stp hidx =>
+              split
+              · exact ha
+              have hp := slicePrepare_rise cfg m (sliceIx cfg start stp) vs f 0 ha
               have run_rise : ∀ (st sp : Int) (repl : List (Bool × VE)),
-                  (match sliceLoop cfg t st sp (slicePrepare cfg m f 0 vs).1 0 repl false with
-                    | .error e => (⟨(slicePrepare cfg m f 0 vs).1, .err e⟩ : Res)
+                  (match sliceLoop cfg t st sp (slicePrepare cfg m (sliceIx cfg start stp) f 0 vs).1 0 repl false with
+                    | .error e => (⟨(slicePrepare cfg m (sliceIx cfg start stp) f 0 vs).1, .err e⟩ : Res)
                     | .ok (f', upd) => ⟨if (n && upd) = true then notify f' [m.id] else f', .ok⟩).forest.aliased = true := by
                 intro st sp repl
                 split
